@@ -207,3 +207,94 @@ Proof.
   - destruct H as [->|H]; [exists verified; left; reflexivity|].
     specialize (IH idxs r c). rewrite E in IH. destruct (IH H) as [b Hb]. exists b. right. exact Hb.
 Qed.
+
+(** * "from the whole extended square": every cell can be drawn — for every in-range value there is a byte string that
+      crypto/rand.Int turns into exactly that value *)
+Fixpoint enc (k : nat) (n : Z) : list Z :=
+  match k with O => [] | S k' => (n / 256 ^ Z.of_nat k') mod 256 :: enc k' n end.
+
+Lemma enc_length k n : length (enc k n) = k.
+Proof. induction k; simpl; auto. Qed.
+
+Lemma be_val_enc k : forall acc n, be_val acc (enc k n) = acc * 256 ^ Z.of_nat k + n mod 256 ^ Z.of_nat k.
+Proof.
+  induction k as [|k IH]; intros acc n.
+  - simpl. rewrite Z.mod_1_r. lia.
+  - cbn [enc be_val]. rewrite IH. rewrite Z.mod_mod by lia.
+    replace (256 ^ Z.of_nat (S k)) with (256 ^ Z.of_nat k * 256) by (rewrite Nat2Z.inj_succ, Z.pow_succ_r by lia; lia).
+    rewrite (Z.rem_mul_r n (256 ^ Z.of_nat k) 256) by (try apply Z.pow_nonzero; lia). lia.
+Qed.
+
+Lemma rand_loop_reaches fuel m k b n rest :
+  0 <= n < m -> 0 < b <= 8 -> n < 2 ^ b * 256 ^ Z.of_nat k ->
+  rand_loop (S fuel) m (S k) b (enc (S k) n ++ rest) = Some (n, rest).
+Proof.
+  intros Hn Hb Hlt. cbn [rand_loop].
+  assert (Hf : firstn (S k) (enc (S k) n ++ rest) = enc (S k) n).
+  { rewrite firstn_app, enc_length, Nat.sub_diag, firstn_O, app_nil_r. rewrite <- (enc_length (S k) n) at 1. apply firstn_all. }
+  assert (Hs : skipn (S k) (enc (S k) n ++ rest) = rest).
+  { rewrite skipn_app, enc_length, Nat.sub_diag. rewrite <- (enc_length (S k) n) at 1. rewrite skipn_all. reflexivity. }
+  rewrite Hf, Hs. cbn [enc]. 
+  change (length ((n / 256 ^ Z.of_nat k) mod 256 :: enc k n)) with (S (length (enc k n))). rewrite enc_length, Nat.ltb_irrefl.
+  assert (Hp : 0 < 256 ^ Z.of_nat k) by (apply Z.pow_pos_nonneg; lia).
+  assert (Hq : 0 <= n / 256 ^ Z.of_nat k < 2 ^ b).
+  { split; [apply Z.div_pos; lia|]. apply Z.div_lt_upper_bound; lia. }
+  assert (H256 : 2 ^ b <= 256) by (change 256 with (2 ^ 8); apply Z.pow_le_mono_r; lia).
+  rewrite !(Z.mod_small (n / 256 ^ Z.of_nat k) 256) by lia. rewrite (Z.mod_small _ (2 ^ b)) by lia.
+  rewrite be_val_enc.
+  replace (n / 256 ^ Z.of_nat k * 256 ^ Z.of_nat k + n mod 256 ^ Z.of_nat k) with n
+    by (rewrite (Z.div_mod n (256 ^ Z.of_nat k)) at 1 by lia; lia).
+  destruct (Z.ltb_spec n m); [reflexivity|lia].
+Qed.
+
+Lemma rand_int_reaches m n : 0 <= n < m -> exists pre, forall rest, rand_int m (pre ++ rest) = Some (n, rest).
+Proof.
+  intros Hn. unfold rand_int. destruct (Z.leb_spec m 0); [lia|].
+  unfold bitlen. destruct (Z.leb_spec (m - 1) 0) as [Hm|Hm].
+  - exists []. intros rest. simpl. assert (n = 0) by lia. subst. reflexivity.
+  - set (bl := Z.log2 (m - 1) + 1).
+    assert (Hbl : 0 < bl) by (unfold bl; pose proof (Z.log2_nonneg (m - 1)); lia).
+    assert (Hpow : m - 1 < 2 ^ bl) by (unfold bl; apply Z.log2_spec; lia).
+    destruct (Z.eqb_spec bl 0); [lia|].
+    set (b := if bl mod 8 =? 0 then 8 else bl mod 8).
+    assert (Hk : exists k, Z.to_nat ((bl + 7) / 8) = S k /\ bl = 8 * Z.of_nat k + b /\ 0 < b <= 8).
+    { pose proof (Z.div_mod bl 8 ltac:(lia)) as Hdm. pose proof (Z.mod_pos_bound bl 8 ltac:(lia)) as Hmb.
+      unfold b. destruct (Z.eqb_spec (bl mod 8) 0) as [E|E].
+      - exists (Z.to_nat (bl / 8 - 1)). assert ((bl + 7) / 8 = bl / 8) as ->.
+        { symmetry. apply Z.div_unique with (r := 7); lia. }
+        assert (1 <= bl / 8) by lia. split; [lia|]. split; [rewrite Z2Nat.id by lia; lia|lia].
+      - exists (Z.to_nat (bl / 8)). assert ((bl + 7) / 8 = bl / 8 + 1) as ->.
+        { symmetry. apply Z.div_unique with (r := bl mod 8 - 1); lia. }
+        assert (0 <= bl / 8) by (apply Z.div_pos; lia). split; [lia|]. split; [rewrite Z2Nat.id by lia; lia|lia]. }
+    destruct Hk as [k [Ek [Ebl Hb]]]. exists (enc (S k) n). intros rest. rewrite Ek.
+    rewrite app_length. cbn [plus]. rewrite enc_length. simpl plus.
+    apply rand_loop_reaches; [lia|exact Hb|].
+    replace (2 ^ b * 256 ^ Z.of_nat k) with (2 ^ bl); [lia|].
+    rewrite Ebl. change 256 with (2 ^ 8). rewrite <- Z.pow_mul_r, <- Z.pow_add_r by lia. f_equal. lia.
+Qed.
+
+(** every cell of the square can be drawn — no coordinate is excluded by construction: for each cell there is a stream
+    prefix after which, however the stream continues, the drawn set contains that cell *)
+Theorem draw_reaches_every_cell w count r c :
+  1 <= count -> 0 <= r < w -> 0 <= c < w ->
+  exists pre, forall more cs rest, select_random_samples w count (pre ++ more) = Some (cs, rest) -> In (r, c) cs.
+Proof.
+  intros Hc Hr Hcc. destruct (rand_int_reaches w r Hr) as [p1 H1]. destruct (rand_int_reaches w c Hcc) as [p2 H2].
+  exists (p1 ++ p2). intros more cs rest E.
+  unfold select_random_samples in E. cbn [select_loop] in E.
+  assert (Ht : 1 <= Z.min count (w * w)) by nia.
+  destruct (Z.leb_spec (Z.min count (w * w)) (Z.of_nat (@length coord []))) as [Hle|_]; [simpl in Hle; lia|].
+  rewrite <- app_assoc in E. rewrite H1, H2 in E. simpl cmem in E. cbn iota in E. simpl app in E.
+  revert E. generalize (length (p1 ++ p2 ++ more)). intros f E.
+  assert (Hin : forall fuel acc bs, In (r, c) acc -> select_loop fuel w (Z.min count (w * w)) acc bs = Some (cs, rest) -> In (r, c) cs).
+  { induction fuel as [|fu IH]; intros acc bs Hi Hs; simpl in Hs.
+    - destruct (Z.leb _ _); [inversion Hs; subst; exact Hi|discriminate].
+    - destruct (Z.leb _ _); [inversion Hs; subst; exact Hi|].
+      destruct (rand_int w bs) as [[r1 b1]|]; [|discriminate]. destruct (rand_int w b1) as [[c1 b2]|]; [|discriminate].
+      eapply IH; [|exact Hs]. destruct (cmem (r1, c1) acc); [exact Hi|apply in_or_app; left; exact Hi]. }
+  eapply Hin; [|exact E]. left. reflexivity.
+Qed.
+
+Example draw_reaches_nonvacuous :
+  select_random_samples 6 2 ([5] ++ [3] ++ [0; 0]) = Some ([(5, 3); (0, 0)], []).
+Proof. vm_compute. reflexivity. Qed.
